@@ -16,12 +16,14 @@ type skGen struct {
 	maxDepth int
 	tags     int
 	loops    int
+	decls    bool // also emit declaration leaves (single, list, function) -- scopes re-entered by loops
 }
 
 type skCtx struct {
 	depth   int
 	inLoop  bool
 	counter string // innermost loop counter, "" outside loops
+	declOK  bool   // the position takes a declaration (a member of a block or of the program, not a bare branch / body)
 }
 
 func (g *skGen) conds(cx skCtx) []func() *model.N {
@@ -41,6 +43,7 @@ func (g *skGen) conds(cx skCtx) []func() *model.N {
 // seqs enumerates sequences of 0..2 statements using at most budget nodes.
 func (g *skGen) seqs(budget int, cx skCtx, emit func(st []*model.N, used int)) {
 	emit(nil, 0)
+	cx.declOK = true
 	g.stmts(budget, cx, func(a *model.N, ua int) {
 		emit([]*model.N{a}, ua)
 		g.stmts(budget-ua, cx, func(b *model.N, ub int) {
@@ -56,6 +59,12 @@ func (g *skGen) stmts(budget int, cx skCtx, emit func(s *model.N, used int)) {
 	}
 	// trace point
 	emit(model.Print(model.Str("t")), 1)
+	if g.decls && cx.declOK {
+		emit(model.Var("d", model.Num(1)), 1)
+		emit(model.VarList([]string{"d", "e"}, []*model.N{model.Num(1), model.Num(2)}), 1)
+		emit(model.VarList([]string{"e", "d"}, []*model.N{nil, model.Num(2)}), 1)
+		emit(model.Fun("d", nil, model.Return(model.Num(3))), 1)
+	}
 	if cx.inLoop {
 		emit(model.Break(), 1)
 		emit(model.Continue(), 1)
@@ -65,6 +74,7 @@ func (g *skGen) stmts(budget int, cx skCtx, emit func(s *model.N, used int)) {
 	}
 	in := cx
 	in.depth++
+	in.declOK = false
 	// if / if-else
 	for _, mk0 := range g.conds(cx) {
 		mk0 := mk0
@@ -245,6 +255,43 @@ func C05(c *fw.Ctx) {
 		}
 	})
 	c.Bound("skeletons", n)
+	// the same search, one size smaller, with declaration leaves (a single declaration, two forms of
+	// declaration list, a function declaration): every block and loop body is a scope that is left and
+	// re-entered, so a declaration in it must neither leak out nor collide with its own earlier execution
+	gd := &skGen{maxDepth: depth, decls: true}
+	nd := 0
+	gd.stmts(size-1, skCtx{declOK: true}, func(s *model.N, used int) {
+		hasDecl := false
+		var walk func(x *model.N)
+		walk = func(x *model.N) {
+			if x == nil {
+				return
+			}
+			if (x.K == "var" && len(x.Names) > 0 && (x.Names[0] == "d" || x.Names[0] == "e")) || (x.K == "fun" && x.S == "d") {
+				hasDecl = true
+			}
+			for _, k := range x.A {
+				walk(k)
+			}
+		}
+		walk(s)
+		if !hasDecl {
+			return
+		}
+		nd++
+		if !c.Mine() {
+			return
+		}
+		s = s.Clone()
+		prog := append(prelude(), model.Print(model.Str("begin")), s, model.Print(model.Str("end")))
+		k := 0
+		retag(s, &k)
+		_, _, skipped := judge(c, prog, judgeOpts{Machine: mach(), SigPrefix: "skeleton-with-declarations", NoOneLine: true})
+		if !skipped {
+			c.R.States++
+		}
+	})
+	c.Bound("skeletons_with_declarations", nd)
 	// else-if ladders of 2-4 rungs, every combination of truth values, conditions with side effects
 	for rungs := 2; rungs <= 4; rungs++ {
 		for mask := 0; mask < 1<<rungs; mask++ {
